@@ -59,6 +59,10 @@ class FieldArrayModel(FieldCompositeModel):
         self._set_size(len(self.field_l))
         fm.is_declared_rand = self.is_declared_rand
         fm.rand_mode = self.is_declared_rand
+        # An element appended while the array is being randomized (from a 
+        # pre_randomize method) is random in that call, as the elements 
+        # created by add_field are
+        fm.set_used_rand(self.is_used_rand, 1)
         self.name_elems()
         
     def clear(self):
